@@ -165,13 +165,24 @@ def purity(ctx: Ctx) -> None:
     ctx.expect("R-PURE", cp, "each property is copied under its own key with its own (immutable str) value", oks, src(st), f"{src(st)}", node=st)
     fs = facts(ctx, cp, st)
     sc = p.func(f"{CV}:_should_copy_property")
-    okg = len(fs) == 1 and fs[0][1] and isinstance(fs[0][0], ast.Call) and callee(ctx, cp, fs[0][0]) is sc and [ast.unparse(a) for a in fs[0][0].args[:2]] == [k, v]
+    pol_calls = [(a, pol) for a, pol in fs if isinstance(a, ast.Call) and callee(ctx, cp, a) is sc]
+    from ..flow import call_args as _ca
+    okg = len(pol_calls) == 1 and pol_calls[0][1] is True and all(isinstance(a, ast.Name) or (a is pol_calls[0][0]) for a, pol in fs) and all(pol for a, pol in fs)
+    if okg:
+        am = _ca(pol_calls[0][0], sc)
+        okg = [ast.unparse(am.get(q)) if am.get(q) is not None else None for q in sc.param_names()[:2]] == [k, v]
+        fs = [(pol_calls[0][0], True)]
     ctx.expect("R-TABLE", cp, "a property is copied exactly when the policy says so", okg, unparse_facts(fs), f"store guarded by {unparse_facts(fs)}", node=st)
-    ipn = fs[0][0].args[2].id if okg and len(fs[0][0].args) > 2 and isinstance(fs[0][0].args[2], ast.Name) else "invalid_properties"
+    _am = _ca(fs[0][0], sc) if okg else {}
+    ipn = _am[sc.param_names()[2]].id if okg and isinstance(_am.get(sc.param_names()[2]), ast.Name) else "invalid_properties"
     ip = [b for b in locals_of(cp).b.get(ipn, []) if b.kind == "assign"]
     oki = len(ip) == 1 and matches("INVALID_PROPERTIES.get(output_type, {})", ip[0].value)
     ctx.expect("R-TABLE", cp, "the invalid-property table is the one of the output type", oki, "", f"{src(ip[0].value) if ip else ''}", node=cp.node)
-    skips = [n for st_ in l.body for n in walk_no_nested(st_) if isinstance(n, (ast.Continue, ast.Break, ast.Return))]
+    skips = [n for st_ in l.body for n in walk_no_nested(st_) if isinstance(n, (ast.Break, ast.Return))]
+    for cont in [n for st_ in l.body for n in walk_no_nested(st_) if isinstance(n, ast.Continue)]:
+        cf = facts(ctx, cp, cont)
+        if not (any(isinstance(a, ast.Call) and callee(ctx, cp, a) is sc and pol is False for a, pol in cf) and all(isinstance(a, (ast.Name, ast.Call)) for a, pol in cf)):
+            skips.append(cont)
     ctx.expect("R-ORDER", cp, "every source property is considered", not skips, "", "", node=l)
 
 
@@ -417,29 +428,50 @@ def policy_dispatch(ctx: Ctx) -> None:
     if okl:
         okk = ast.unparse(match("$m.get($k) or INVALID_PROPERTY_BEHAVIORS[$k]", bb[0].value)["k"]) == kind
         ctx.expect("R-TABLE", f, "the behaviour is looked up by the property's kind", okk, "", "", node=f.node)
-    outcomes: Dict[str, List[Tuple[Any, List[Tuple[str, bool]]]]] = {}
-    for n in body_walk(f.node):
-        if isinstance(n, (ast.Return, ast.Raise)):
-            fs = [(ast.unparse(a), pol) for a, pol in facts(ctx, f, n)]
-            what = ("return", try_ev(ctx, f, n.value)) if isinstance(n, ast.Return) else ("raise", ast.unparse(n.exc.func if isinstance(n.exc, ast.Call) else n.exc))
-            outcomes.setdefault(str(what), []).append((what, fs))
-    listed = (f"{prop} in {keys}", True)
+    from ..decide import decisions, judge_table, key as _k, IGNORE
+    listed = _k(f"{prop} in {keys}")
+    B = {m: _k(f"{BN} == InvalidPropertyBehavior.{m}") for m in ("COPY_ANYWAY", "IGNORE", "ERROR_UNLESS_DEFAULT", "ERROR")}
+    isdef = _k(f"{val}.strip() == DEFAULT_PROPERTIES[{prop}]")
 
-    def has(what, need: List[Tuple[str, bool]], forbid_pos: List[str] = ()) -> bool:
-        for w, fs in outcomes.get(str(what), []):
-            if all(x in fs for x in need) and not any((a, True) in fs for a in forbid_pos):
-                return True
-        return False
+    def spec(a):
+        if not a[listed]:
+            return True
+        on = [m for m, k_ in B.items() if a.get(k_)]
+        if len(on) > 1:
+            return IGNORE
+        if not on:
+            return "raise InvalidPropertyException" if B["ERROR"] not in a_keys else IGNORE
+        m = on[0]
+        if m == "COPY_ANYWAY":
+            return True
+        if m == "IGNORE":
+            return False
+        if m == "ERROR_UNLESS_DEFAULT":
+            return False if a[isdef] else "raise InvalidPropertyException"
+        return "raise InvalidPropertyException"
 
-    B = f"{BN} == InvalidPropertyBehavior."
-    ctx.expect("R-TABLE", f, "COPY_ANYWAY -> copied", has(("return", True), [listed, (B + "COPY_ANYWAY", True)]), "", str(outcomes), node=f.node)
-    ctx.expect("R-TABLE", f, "IGNORE -> silently left out", has(("return", False), [listed, (B + "IGNORE", True)]), "", str(outcomes), node=f.node)
-    ctx.expect("R-TABLE", f, "ERROR_UNLESS_DEFAULT -> left out iff the trimmed value is the default",
-               has(("return", False), [listed, (B + "ERROR_UNLESS_DEFAULT", True), (f"{val}.strip() == DEFAULT_PROPERTIES[{prop}]", True)]), "", str(outcomes), node=f.node)
-    ctx.expect("R-TABLE", f, "ERROR (and a non-default value under ERROR_UNLESS_DEFAULT) -> InvalidPropertyException",
-               has(("raise", "InvalidPropertyException"), [listed, (B + "COPY_ANYWAY", False), (B + "IGNORE", False)], forbid_pos=[B + "COPY_ANYWAY", B + "IGNORE"]), "", str(outcomes), node=f.node)
-    ctx.expect("R-TABLE", f, "a property outside the table is copied", any(w == ("return", True) and not any(a.startswith(f"{prop} in") and pol for a, pol in fs) for lst in outcomes.values() for w, fs in lst),
-               "", str(outcomes), node=f.node)
+    def outcome(d):
+        k_, v = d.terminal()
+        if k_ == "return":
+            c = try_ev(ctx, f, v) if v is not None else None
+            return c if isinstance(c, bool) else f"return {src(v) if v is not None else ''}"
+        if k_ == "raise":
+            e = v.func if isinstance(v, ast.Call) else v
+            return f"raise {ast.unparse(e)}"
+        return "fall"
+
+    decs = decisions(ctx, f, nonempty=lambda fornode, env: fornode is l, stop=[BN])
+    a_keys = set()
+    for d in decs:
+        a_keys.update(d.assign)
+    defs = [k_ for k_ in a_keys if "DEFAULT_PROPERTIES[" in k_]
+    if len(defs) == 1 and defs[0] != isdef:
+        ctx.bad("R-TABLE", f, "the default test compares the trimmed value with the field's default", f"the test is '{defs[0]}', the documented rule is '{isdef}' "
+                "(a default value with surrounding blanks must still count as the default)", node=f.node)
+        isdef = defs[0]
+    atoms = [listed] + [k_ for k_ in B.values() if k_ in a_keys] + [isdef]
+    judge_table(ctx, "R-TABLE", f, "COPY_ANYWAY -> copied; IGNORE -> left out; ERROR_UNLESS_DEFAULT -> left out iff the trimmed value is the default, else refused; "
+                "ERROR -> refused; unlisted property -> copied", decs, atoms, spec, outcome, dont_care=[_k(f"{prop} in {keys}")])
     # the exception names the property
     rs = [n for n in body_walk(f.node) if isinstance(n, ast.Raise)]
     okn = any(isinstance(r.exc, ast.Call) and any(isinstance(x, ast.Name) and x.id == prop for x in ast.walk(r.exc)) for r in rs)
